@@ -620,6 +620,8 @@ def _collect(env):
         'fixed': [p for _h, cid, p in raw if cid == 4],
         'eatt': list(env.eatt_in),
         'all': [p for _h, _cid, p in raw] + list(env.eatt_in) + [p for _cid, p in env.other_in],
+        # PDUs outside the two ATT bearers (other CIDs of the raw peer, fixed channels of the second device)
+        'side': [p for _h, cid, p in raw if cid != 4] + [p for cid, p in env.other_in if cid < 0x40],
     }
     env.eatt_in.clear()
     env.other_in.clear()
@@ -903,7 +905,7 @@ def run_program(ctx, params, steps, confirm=True) -> None:
                 for c, pl in ((cell, plan), (second, plan2)):
                     # a leak is attributed to the request on whose bearer it arrived
                     g = {'fixed': got['fixed'] if c[4] == 'fixed' else [], 'eatt': got['eatt'] if c[4] == 'eatt' else [],
-                         'all': got[c[4]] if c is second else [x for x in got['all'] if x not in got[second[4]]]}
+                         'all': got[c[4]] + ([] if c is second else got['side'])}
                     verdicts += judge(env, c, pl, g, after, [])
                 case = {'kind': 'program', 'world': _non_default(params), 'cells': [step]}
                 for sig, what in verdicts:
